@@ -263,10 +263,18 @@ func mayAuth(c *Conn) bool {
 // calls made by the function under verification.
 
 //@ func (c *Conn) handleLogin(tag string, dec *imapwire.Decoder) (err error)
+//@   props C04:post,pre@call
+//@   requires tag != ""
+//@   ensures err == nil ==> __ghost("tagged") == old(__ghost("tagged"))+1
+//@   ensures err != nil ==> __ghost("tagged") == old(__ghost("tagged")) || __failed("Conn.writeCapabilityStatus")
 //@   ensures c.state == old(c.state) || (old(mayAuth(c)) && c.state == imap.ConnStateAuthenticated)
 //@   ensures c.state != old(c.state) ==> __called("Session.Login") && !__failed("Session.Login")
 
 //@ func (c *Conn) handleAuthenticate(tag string, dec *imapwire.Decoder) (err error)
+//@   props C04:post,pre@call
+//@   requires tag != ""
+//@   ensures err == nil ==> __ghost("tagged") == old(__ghost("tagged"))+1
+//@   ensures err != nil ==> __ghost("tagged") == old(__ghost("tagged")) || __failed("writeCapabilityOK")
 //@   ensures c.state == old(c.state) || (old(mayAuth(c)) && c.state == imap.ConnStateAuthenticated)
 //@   ensures c.state != old(c.state) ==> __called("Server.Next") && !__failed("Server.Next")
 
@@ -275,6 +283,10 @@ func mayAuth(c *Conn) bool {
 //@   ensures c.state != old(c.state) ==> __called("SessionUnauthenticate.Unauthenticate") && !__failed("SessionUnauthenticate.Unauthenticate")
 
 //@ func (c *Conn) handleSelect(tag string, dec *imapwire.Decoder, readOnly bool) (err error)
+//@   props C04:post,pre@call
+//@   requires tag != ""
+//@   ensures err == nil ==> __ghost("tagged") == old(__ghost("tagged"))+1
+//@   ensures err != nil ==> __ghost("tagged") == old(__ghost("tagged")) || __failed("Conn.writeStatusResp")
 //@   ensures c.state == old(c.state) || (old(authed(c)) && (c.state == imap.ConnStateSelected || c.state == imap.ConnStateAuthenticated))
 //@   ensures __called("Session.Select") && __failed("Session.Select") ==> c.state == imap.ConnStateAuthenticated
 //@   ensures c.state == imap.ConnStateSelected && !(__called("Session.Select") && !__failed("Session.Select")) ==> old(c.state) == imap.ConnStateSelected && (!__called("Session.Unselect") || __failed("Session.Unselect"))
@@ -289,8 +301,13 @@ func mayAuth(c *Conn) bool {
 //@   ensures c.state == old(c.state) || c.state == imap.ConnStateLogout
 //@   ensures err == nil ==> c.state == imap.ConnStateLogout
 
+// readCommand: a command that is read and handled without a connection-level
+// error receives exactly one tagged response.
+//
 //@ func (c *Conn) readCommand(dec *imapwire.Decoder) (err error)
-//@   ensures old(c.state) == imap.ConnStateLogout ==> true
+//@   props C04:post,pre@call
+//@   ensures err == nil && !tagHandlerFailed() ==> __ghost("tagged") == old(__ghost("tagged"))+1
+//@   ensures err == nil ==> __ghost("tagged") >= old(__ghost("tagged"))+1 && __ghost("tagged") <= old(__ghost("tagged"))+2
 
 // Explicit panics that guard configuration, not client input.
 
@@ -299,6 +316,10 @@ func mayAuth(c *Conn) bool {
 //@   ensures c.state == old(c.state)
 
 //@ func (c *Conn) handleStartTLS(tag string, dec *imapwire.Decoder) (err error)
+//@   props C04:post,pre@call
+//@   requires tag != ""
+//@   ensures err == nil ==> __ghost("tagged") == old(__ghost("tagged"))+1
+//@   ensures err != nil ==> __ghost("tagged") == old(__ghost("tagged")) || __failed("writeStatusResp")
 //@   panics assumed-unreachable io.CopyN of exactly Buffered() bytes from a bufio.Reader into a bytes.Buffer cannot fail (stdlib contract)
 //@   ensures c.state == old(c.state)
 
@@ -321,3 +342,84 @@ func mayAuth(c *Conn) bool {
 //@   loop 0 invariant forall j int :: 0 <= j && j < len(t.queue) ==> __same(t.queue[j], old(t.queue[j]))
 //@   loop 0 invariant forall j int :: 0 <= j && j <= i ==> old(t.queue[j].expunge) == 0
 //@   loop 0 decreases len(t.queue) - i
+
+// ---------------------------------------------------------------------------
+// C04: command framing. The ghost counter "tagged" counts tagged response
+// lines (status responses written with a non-empty tag); it is defined by the
+// four functions that put a tag at the start of a line.
+
+//@ func writeStatusResp(enc *imapwire.Encoder, tag string, statusResp *imap.StatusResponse) (err error)
+//@   ghost-inc tagged when tag != ""
+
+//@ func writeCapabilityStatus(enc *imapwire.Encoder, tag string, typ imap.StatusResponseType, caps []imap.Cap, text string) (err error)
+//@   ghost-inc tagged when tag != ""
+
+//@ func (c *Conn) writeAppendOK(tag string, data *imap.AppendData) (err error)
+//@   ghost-inc tagged when tag != ""
+//@   ensures c.state == old(c.state)
+
+//@ func (c *Conn) writeCopyOK(tag string, data *imap.CopyData) (err error)
+//@   ghost-inc tagged when tag != ""
+//@   ensures c.state == old(c.state)
+
+// Every method of *Conn without a tag parameter writes no tagged response.
+
+//@ rule (c *Conn)
+//@   props C04:post,pre@call
+//@   post-all
+//@   ensures __ghost("tagged") == old(__ghost("tagged"))
+//@   exclude serve readCommand handleStartTLS handleAuthenticate handleLogin handleSelect handleAppend handleCopy handleSearch writeStatusResp writeCapabilityStatus writeAppendOK writeCopyOK writeESearch Bye
+
+//@ func (c *Conn) writeStatusResp(tag string, statusResp *imap.StatusResponse) (err error)
+//@   props C04:post,pre@call
+//@   ensures tag != "" ==> __ghost("tagged") == old(__ghost("tagged"))+1
+//@   ensures tag == "" ==> __ghost("tagged") == old(__ghost("tagged"))
+//@   ensures c.state == old(c.state)
+
+//@ func (c *Conn) writeCapabilityStatus(tag string, typ imap.StatusResponseType, text string) (err error)
+//@   props C04:post,pre@call
+//@   ensures tag != "" ==> __ghost("tagged") == old(__ghost("tagged"))+1
+//@   ensures tag == "" ==> __ghost("tagged") == old(__ghost("tagged"))
+//@   ensures c.state == old(c.state)
+
+//@ func (c *Conn) Bye(text string) (err error)
+//@   props C04:post,pre@call
+//@   ensures __ghost("tagged") == old(__ghost("tagged"))
+//@   ensures c.state == old(c.state)
+
+//@ func (c *Conn) handleAppend(tag string, dec *imapwire.Decoder) (err error)
+//@   props C04:post,pre@call
+//@   requires tag != ""
+//@   ensures err == nil ==> __ghost("tagged") == old(__ghost("tagged"))+1
+//@   ensures err != nil ==> __ghost("tagged") == old(__ghost("tagged")) || __failed("Conn.writeAppendOK")
+//@   ensures c.state == old(c.state)
+
+//@ func (c *Conn) handleCopy(tag string, dec *imapwire.Decoder, numKind NumKind) (err error)
+//@   props C04:post,pre@call
+//@   requires tag != ""
+//@   ensures err == nil ==> __ghost("tagged") == old(__ghost("tagged"))+1
+//@   ensures err != nil ==> __ghost("tagged") == old(__ghost("tagged")) || __failed("Conn.writeCopyOK")
+//@   ensures c.state == old(c.state)
+
+// tagHandlerFailed: one of the handlers that send their own tagged completion
+// returned an error (after which readCommand reports the failure itself; if the
+// handler's own completion had already been written and only its flush failed,
+// the connection's writer is broken and a second line may be attempted).
+//
+//@ pure
+func tagHandlerFailed() bool {
+	return __failed("Conn.handleStartTLS") || __failed("Conn.handleAuthenticate") || __failed("Conn.handleLogin") || __failed("Conn.handleSelect") || __failed("Conn.handleAppend") || __failed("Conn.handleCopy")
+}
+
+// SEARCH takes the tag only to correlate an ESEARCH response; it writes no
+// tagged completion itself.
+
+//@ func (c *Conn) handleSearch(tag string, dec *imapwire.Decoder, numKind NumKind) (err error)
+//@   props C04:post,pre@call
+//@   ensures __ghost("tagged") == old(__ghost("tagged"))
+//@   ensures c.state == old(c.state)
+
+//@ func (c *Conn) writeESearch(tag string, data *imap.SearchData, options *imap.SearchOptions) (err error)
+//@   props C04:post,pre@call
+//@   ensures __ghost("tagged") == old(__ghost("tagged"))
+//@   ensures c.state == old(c.state)
